@@ -34,7 +34,7 @@ prop('C03', 'other',
      'PROVED on the real source of Engine.run_for (511 obligations, all loops cut at invariants, any number of processes visited in any order, any sequence of timestep/condition answers, any call sequence -- the invariant is the pre- and postcondition): every assignment to global_time keeps old <= new <= end_time, the call returns with global_time == start + interval exactly, full_step is strictly positive whenever finite (strict progress of every applying iteration), emit times are strictly increasing for emit_step 1. NOT PROVED (bounded only): termination (watchdog incl. all-quiet and empty composites), the decimal-grid clause under global_time_precision (float rounding is outside the real-number encoding).',
      driver='bounded.sched', driver_args=['--prop', 'C03'], rule=SCHED_RULE, assumptions=[FLOATS])
 prop('C12', 'other',
-     'PROVED: in run_for the ghost emit log only grows by the current global_time, right after _send_updates (which ends with the step phase), with strictly increasing times for emit_step 1 and non-decreasing times otherwise. BOUNDED: one configuration record first, a row after construction and after every batch, rows equal to the projection of the hierarchy on the emit flags (Store.emit_data and the emitter are outside the translated subset).',
+     'PROVED: in run_for the ghost emit log only grows by the current global_time, right after _send_updates (which ends with the step phase), with strictly increasing times for emit_step 1 and non-decreasing times otherwise. BOUNDED: one configuration record first, a row after construction and after every batch, rows equal to the projection of the hierarchy on the emit flags (Store.emit_data is outside the translated subset). ALSO PROVED: _emit_store_data hands the emitter exactly one history record whose data is the emit view plus time == the current global time of the engine; RAMEmitter.emit keys rows by that time, deep-merges a row emitted again for a recorded time and refuses it exactly when it disagrees somewhere (deep_merge_check in the mode the emitter uses, refusal contract both ways); serialize_value is summarised as the identity on plain data.',
      drivers=[('bounded.sched', ['--prop', 'C12']), ('bounded.c12', [])], rule=SCHED_RULE)
 
 prop('C14', 'exploration',
@@ -71,7 +71,7 @@ prop('C15', 'exploration',
 STRUCT_RULE = ('seeded random structural histories (<=3/4 ticks, 1-2 operations per tick from _add,_delete,_generate,_divide,'
                '_move plus value updates) against a reference model of the value tree, node identities, live-set bookkeeping')
 prop('C09', 'exploration',
-     'BOUNDED ONLY so far: after every batch the value tree equals the reference model of the documented meaning of the '
+     'PROVED (small part): Store.add raises iff the key exists, Store._delete_path removes exactly one child of one node, Engine._add_process_path registers the process it is given at its path (replacing an earlier registration). BOUNDED: after every batch the value tree equals the reference model of the documented meaning of the '
      'operations (double entry), all nodes not named by an operation keep identity and value, division conserves.',
      drivers=[('bounded.struct', ['--prop', 'C09']), ('bounded.c17', []), ('bounded.steps', ['--prop', 'C09'])], rule=STRUCT_RULE)
 prop('C10', 'other',
@@ -99,6 +99,6 @@ prop('C13', 'other',
      drivers=[('bounded.c13', [])], driver_timeout={'quick': 900, 'thorough': 7200},
      trusted=['multiprocessing pipes are FIFO and faithful; join returns once the child left its loop'])
 prop('C16', 'exploration',
-     'BOUNDED so far: embedding at a path == at the root; three engine entry points give one trajectory; merge sequences '
+     'PROVED: deep_merge == right-biased deep merge and assoc_in (the embedding helper of generate) == the value at the path with dictionaries created on the way, every other entry kept, argument unchanged. BOUNDED: embedding at a path == at the root; three engine entry points give one trajectory; merge sequences '
      'equal the model union; merged-in composites and argument dictionaries are never changed, then or later.',
      drivers=[('bounded.c16', [])])
